@@ -19,7 +19,7 @@ RULE = (
     "without host resources (CD/DVD/floppy with ISO files), ids starting with o/v/f/: characters, renamed or default "
     "namespace prefixes, redundant namespace declarations. VirtualBox: nested HardDisk registries with formats "
     "VDI/vdi/VMDK/VHD/absent and types Normal/Immutable/Writethrough/absent, DVD and floppy images, default or prefixed "
-    "namespace. PVS: Hdd/CdRom/Fdd/NetworkAdapter lists with or without SystemName. Oracle: disks() equals the model's hard "
+    "namespace. PVS: Hdd/CdRom/Fdd/NetworkAdapter lists with or without SystemName, with or without Partition children that carry names of their own. Oracle: disks() equals the model's hard "
     "disk backing files (VMX sorted, XML kinds in document order) and VMX.parse().attr equals the lower-cased last-wins "
     "dictionary; a second disks() call (optionally after peeking at the first entry, optionally after a second configuration "
     "of the same kind was parsed and listed) gives the same list. Non-trivial = >= 1 disk and >= 1 non-disk device."
@@ -182,7 +182,8 @@ def pvs_spec(draw):
     for _ in range(draw(st.integers(0, 7))):
         kind = draw(st.sampled_from(["Hdd", "Hdd", "Hdd", "CdRom", "Fdd", "NetworkAdapter"]))
         devs.append({"kind": kind, "system_name": draw(st.sampled_from(["Fedora-0.hdd", "harddisk1.hdd", "d & <e>.hdd", "/Users/x/a b.hdd", "cd.iso", None])),
-                     "first": draw(st.booleans())})
+                     "first": draw(st.booleans()),
+                     "partitions": draw(st.sampled_from([None, None, None, ["/dev/disk0s1"], ["/dev/disk0s1", "/dev/disk0s2"]]))})
     return {"kind": "pvs", "devices": devs, "comments": draw(st.booleans())}
 
 
